@@ -53,3 +53,51 @@ pub mod sharding {
         }
     }
 }
+
+/// C02/C10: stream-id bookkeeping and the real connection router over an arbitrary byte stream.
+pub mod connection {
+    pub use crate::network::connection_verif::{
+        Lookup, RawConnection, RawResponse, StreamIds, StreamMap,
+    };
+}
+
+/// C03: a `PreparedStatement` built from a (forged) PREPARED response exactly as
+/// `Connection::prepare` builds it, and the crate-private token computation.
+pub mod prepared {
+    use crate::frame::response::result::Prepared;
+    use crate::routing::partitioner::PartitionerName;
+    use crate::serialize::row::SerializedValues;
+    use crate::statement::Statement;
+    use crate::statement::prepared::{PreparedStatement, RawPreparedStatement};
+
+    /// `RawPreparedStatement::new(..).into_prepared_statement()` + `set_partitioner_name`.
+    pub fn statement_from_prepared(prepared: Prepared, cdc: bool) -> PreparedStatement {
+        let stmt = Statement::new("verif");
+        let mut ps =
+            RawPreparedStatement::new(&stmt, prepared, false, None).into_prepared_statement();
+        ps.set_partitioner_name(if cdc {
+            PartitionerName::CDC
+        } else {
+            PartitionerName::Murmur3
+        });
+        ps
+    }
+
+    /// `routing::partitioner::calculate_token_for_partition_key`;
+    /// `Err(len)` = `TokenCalculationError::ValueTooLong(len)`.
+    pub fn calculate_token_for_partition_key(
+        values: &SerializedValues,
+        cdc: bool,
+    ) -> Result<i64, usize> {
+        let p = if cdc {
+            PartitionerName::CDC
+        } else {
+            PartitionerName::Murmur3
+        };
+        crate::routing::partitioner::calculate_token_for_partition_key(values, &p)
+            .map(|t| t.value())
+            .map_err(|e| match e {
+                crate::statement::prepared::TokenCalculationError::ValueTooLong(n) => n,
+            })
+    }
+}
